@@ -816,16 +816,17 @@ def scan_recorded_index(body, vec_expr, idx_expr, need_rev):
         for h, blocks in body.loops().items():
             if not incs or not all(i in blocks for i in incs) or not all(kb in blocks for kb, k in keys):
                 continue
+            # the step of THIS loop: a next() over the scanned vector that no inner loop contains
             nb = None
-            for x in blocks:
+            for x in sorted(blocks):
                 tx = body.term(x)
-                if tx["k"] == "call" and last_seg(body.callee(tx)) == "next":
-                    nb = x
+                if tx["k"] == "call" and last_seg(body.callee(tx)) == "next" and not any(
+                        x in bl2 and len(bl2) < len(blocks) for bl2 in body.loops().values()):
+                    it = body.expand_vars(strip_sites(body.call_args(x)[0]))
+                    if flow.backward(body, it, lambda z: z[0] in ("var", "param") and z[1] == vroot,
+                                     through_containers=False) is not None:
+                        nb = x
             if nb is None:
-                continue
-            it = body.expand_vars(strip_sites(body.call_args(nb)[0]))
-            if flow.backward(body, it, lambda z: z[0] in ("var", "param") and z[1] == vroot,
-                             through_containers=False) is None:
                 continue
             some_t = [tgt for tgt, atom, val in body.switch_edges(body.succs[nb][0]) if val == "Some"]
             if not some_t:
